@@ -214,6 +214,56 @@ def geometry4_histories(tier):
     return out
 
 
+def geometry5_histories(tier):
+    """the kernel geometries on int16 / per-tensor uint8 inputs, large pooling windows, batched FULLY_CONNECTED, QUANTIZE between data types,
+    LEAKY_RELU slopes (0, 1, above 1, negative), clamps behind different producers"""
+    quick = tier == "quick"
+    out = []
+
+    def add(start, steps):
+        h = dict(start=(list(start[0]), start[1]), steps=list(steps))
+        if nets.build(h, 0) is not None:
+            out.append(h)
+
+    for st in (((1, 3, 9, 8), "int16"), ((1, 1, 6, 3), "int16")) + (() if quick else (((1, 2, 12, 1), "int16"), ((2, 3, 9, 8), "int8"))):
+        for kh in (1, 3):
+            for kw in (1, 2, 3, 4):
+                for sw in (1, 2, 3, 4, 6):
+                    for pad in "SV":
+                        add(st, ["convg.k%dx%d.s1x%d.%s.c8" % (kh, kw, sw, pad)])
+                        if kw >= 2 and sw <= 3:
+                            add(st, ["dwg.k%dx%d.s1x%d.%s" % (kh, kw, sw, pad)])
+                            add(st, ["maxg.k%dx%d.s1x%d.%s" % (kh, kw, sw, pad)])
+    for st in (((1, 16, 16, 8), "int8"), ((1, 33, 20, 3), "uint8")) + (() if quick else (((1, 16, 16, 8), "int16"), ((1, 64, 64, 4), "int8"))):
+        for k in (5, 8, 16):
+            for s_ in (1, 2, 3):
+                for pad in "SV":
+                    add(st, ["maxg.k%dx%d.s%dx%d.%s" % (k, k, s_, s_, pad)])
+                    add(st, ["avgg.k%dx%d.s%dx%d.%s" % (k, k, s_, s_, pad)])
+        add(st, ["maxg.k16x1.s1x1.V"])
+        add(st, ["avgg.k1x16.s1x1.V"])
+    for st in (((4, 32), "int8"), ((3, 17), "uint8"), ((2, 64), "int16"), ((8, 8), "int8")):
+        for units in (1, 8, 17, 64):
+            add(st, ["fcg.u%d" % units])
+            add(st, ["fcg.u%d" % units, "fcg.u8"])
+    for st in (((1, 4, 4, 8), "int8"), ((1, 3, 5, 17), "uint8"), ((1, 4, 4, 8), "int16")):
+        for dt in ("int8", "uint8", "int16"):
+            for si in range(4):
+                add(st, ["quantizeg.%s.s%d" % (dt, si)])
+                if not quick:
+                    add(st, ["conv1x1", "quantizeg.%s.s%d" % (dt, si), "relu"])
+        for a in ("a0", "a01", "a1", "a15", "am02", "a001"):
+            add(st, ["lrelug." + a])
+            add(st, ["conv1x1", "lrelug." + a])
+            if not quick:
+                add(st, ["lrelug." + a, "reshape"])
+                add(st, ["maxpool2x2", "lrelug." + a, "conv1x1"])
+        for r_ in ("r", "r6", "rn1"):
+            for pre in ("conv3x3", "add_const", "maxpool2x2", "avgpool2x2", "mul_const", "dw3x3", "reshape", "concat"):
+                add(st, [pre, "relug." + r_])
+    return out
+
+
 def default_plan(tier, scale=1.0):
     mids = ["tap", "branch_cpu", "branch_npu"]
     big = [((1, 32, 32, 16), "int8")]
@@ -241,7 +291,7 @@ def default_plan(tier, scale=1.0):
                 ("cpualias4xC2", cpualias, "c2"),
                 ("G1xCZ", nets.STARTS_Q[:2], nets.SIGMA_Q, 1, "cZ"),
                 ("regblockdepxCP", reg_blockdep, "cP"), ("regtilepadxC8", reg_tilepad, "c8"), ("regupcascadexC8", reg_upcascade, "c8"), ("regifacexC2", reg_iface, "c2"),
-                ("geometryxC1", geometry_histories(tier), "c1"), ("geometry2xC1", geometry2_histories(tier), "c1"), ("geometry3xC1", geometry3_histories(tier), "c1"), ("geometry4xC1", geometry4_histories(tier), "c1"),
+                ("geometryxC1", geometry_histories(tier), "c1"), ("geometry2xC1", geometry2_histories(tier), "c1"), ("geometry3xC1", geometry3_histories(tier), "c1"), ("geometry4xC1", geometry4_histories(tier), "c1"), ("geometry5xC1", geometry5_histories(tier), "c1"),
                 ("perfcascade3xCP", histories(big, perf_ops, 3), "cP")]
     return [("G1xC24", nets.STARTS_T, nets.SIGMA_T, 1, "c24"),
             ("resizefirstxCR", resize_first + [dict(start=([1, 16, 16, 8], "int8"), steps=h["steps"]) for h in resize_first], "cR"),
@@ -249,7 +299,7 @@ def default_plan(tier, scale=1.0):
             ("G2xC8", nets.STARTS_Q, nets.SIGMA_Q, 2, "c8"),
             ("chain3xC4", nets.STARTS_Q[:2], nets.SIGMA_C, 3, "c4"),
             ("perfcascade3xCP", histories(big + [((1, 48, 48, 8), "int8")], nets.SIGMA_C, 3), "cP"),
-            ("geometryxC2", geometry_histories(tier), "c2"), ("geometry2xC4", geometry2_histories(tier), "c4"), ("geometry3xC4", geometry3_histories(tier), "c4"), ("geometry4xC4", geometry4_histories(tier), "c4"), ("cpualias4xC8", cpualias, "c8"), ("G1xCZ", nets.STARTS_T, nets.SIGMA_T, 1, "cZ"),
+            ("geometryxC2", geometry_histories(tier), "c2"), ("geometry2xC4", geometry2_histories(tier), "c4"), ("geometry3xC4", geometry3_histories(tier), "c4"), ("geometry4xC4", geometry4_histories(tier), "c4"), ("geometry5xC4", geometry5_histories(tier), "c4"), ("cpualias4xC8", cpualias, "c8"), ("G1xCZ", nets.STARTS_T, nets.SIGMA_T, 1, "cZ"),
             ("fork3xC8", fork_histories(nets.STARTS_Q, nets.SIGMA_C + ["cpu_neg", "concat", "split"], mids, nets.SIGMA_C + ["cpu_neg", "concat", "reshape"]), "c8")]
 
 
